@@ -220,7 +220,12 @@ def run_history(P):
                         tn = in_txn[who]
                         H["offsets_sent"].append({"txn": tn, "who": who, "group": grp, "tp": f"{TOPIC}:0", "offset": o,
                                                   "t": round(loop.time() - t0, 6)})
-                        await prod.send_offsets_to_transaction({TopicPartition(TOPIC, 0): o}, grp)
+                        offs = {TopicPartition(TOPIC, 0): o}
+                        if len(args) > 1 and args[1] == "multi":      # offsets of two partitions in one call
+                            offs[TopicPartition(TOPIC, 1)] = o + 1
+                            H["offsets_sent"].append({"txn": tn, "who": who, "group": grp, "tp": f"{TOPIC}:1", "offset": o + 1,
+                                                      "t": round(loop.time() - t0, 6)})
+                        await prod.send_offsets_to_transaction(offs, grp)
                     elif name == "commit":
                         rec["txn"] = in_txn[who]
                         await prod.commit_transaction()
